@@ -158,6 +158,7 @@ pub fn control_n8_units(name: &str, units: &[u16]) -> bool {
 
 /// reference value (not a control): the variant of `std::io::ErrorKind` that means "interrupted", as this toolchain
 /// numbers it - rule R9.9 compares the library's retry predicate with it
+#[cfg(feature = "std")]
 pub fn control_ref_errorkind_interrupted() -> std::io::ErrorKind {
     std::io::ErrorKind::Interrupted
 }
